@@ -231,6 +231,8 @@ class SimTime:
 
     @staticmethod
     def sleep(dt):
+        if dt < 0:
+            raise ValueError("sleep length must be non-negative")
         CURRENT[0].sleep(dt)
 
 
